@@ -32,6 +32,8 @@ def corr(chk, r, n):
         pids = [22, -6, -5, -4, -3, -2, -1, 21, 1, 2, 3, 4, 5, 6][:npid] if npid == 14 else [21, 1, -2]
         ng = r.choice([2, 3, 5])
         xgrid = sorted(float(r.uniform(0.01, 1.0)) for _ in range(ng))
+        if r.random() < 0.6:
+            xgrid[-1] = 1.0  # interpolation grids end at x = 1: that node is contracted like any other
         has = [r.random() < 0.7 for _ in pids]
         table = {(pid, x): float(r.randint(-5, 5)) * x for pid in pids for x in xgrid}
         pdf = RecPDF([p for p, h in zip(pids, has) if h], table)
@@ -224,6 +226,65 @@ def search_alpha_s_vfns(chk, r, n):
         chk.search_case("alpha_s_vfns_thresholds", not bad, what=f"ZM-VFNS kcThr={kc} kbThr={kb}: alpha_s(xiR*Q) does not switch nf at (k*m)^2", data=detail, sample=detail)
 
 
+def search_alpha_s_on_walls(chk, r, n):
+    """beyond LO the coupling jumps at a matching scale when k != 1 (and at NNLO always): exactly on
+    (k m)^2 the upper flavour number applies, as for the coefficient functions.  eko's coupling
+    evolution is external: the oracle is eko's own `Couplings` object asked for
+    nf = 3 + #{(k m)^2 <= muR^2}, with masses and ratios chosen so that the walls and the scales are
+    exact in double arithmetic"""
+    from eko.couplings import Couplings, couplings_mod_ev
+    from eko.io import dictlike, runcards, types
+    from yadism.esf.result import ESFResult
+    from yadism.output import Output
+
+    for i in range(n):
+        pto = [1, 2][i % 2]
+        kc, kb = [(2.0, 2.0), (0.5, 2.0), (1.0, 0.5), (2.0, 1.0)][i % 4]
+        xir = [1.0, 2.0, 0.5][i % 3]
+        mc, mb, mt = 1.5, 4.5, 172.5
+        th = cards.theory(PTO=pto, FNS="ZM-VFNS", alphas=0.25, Qref=2.0 if kc < 2 else 4.0, nfref=4, mc=mc, mb=mb, mt=mt, Qmc=mc, Qmb=mb, kcThr=kc, kbThr=kb, XIR=xir, XIF=1.0, Q0=1.0, nf0=3)
+        walls = [(kc * mc) ** 2, (kb * mb) ** 2, mt**2]
+        q2s = []
+        for w in walls[:2]:
+            q2s += [w / (xir * xir), 0.81 * w / (xir * xir), 1.21 * w / (xir * xir)]
+        exact = [float(np.sqrt(q2_) * xir) ** 2 == w for q2_, w in zip(q2s[0::3], walls[:2])]
+        out = Output()
+        out["xgrid"] = dict(grid=[0.5, 1.0], log=True)
+        out["pids"] = [21]
+        out["F2_total"] = [ESFResult(0.5, float(q2_), None, {(1, 0, 0, 0): (np.array([[1.0, 0.0]]), np.zeros((1, 2)))}) for q2_ in q2s]
+        out.theory = th
+
+        class P:
+            def hasFlavor(self, pid):
+                return True
+
+            def xfxQ2(self, pid, x, Q2):
+                return x
+
+        try:
+            res = out.apply_pdf(P())
+            new = runcards.Legacy(theory=th, operator={}).new_theory
+            method = couplings_mod_ev(dictlike.load_enum(types.EvolutionMethod, runcards.Legacy.MOD_EV2METHOD.get(th["ModEv"], th["ModEv"])))
+            sc = Couplings(couplings=new.couplings, order=new.order, method=method, masses=[mq**2 for mq, _ in new.heavy.masses], hqm_scheme=new.heavy.masses_scheme, thresholds_ratios=np.power(new.heavy.matching_ratios, 2).tolist())
+        except Exception as e:
+            chk.extra.setdefault("search_exceptions", {})
+            k = f"alpha_s_walls:{type(e).__name__}:{str(e)[:80]}"
+            chk.extra["search_exceptions"][k] = chk.extra["search_exceptions"].get(k, 0) + 1
+            continue
+        got = [4 * math.pi * p_["result"] for p_ in res["F2_total"]]
+        bad, rows = [], []
+        for q2_, g in zip(q2s, got):
+            mu2 = float(np.sqrt(q2_) * xir) ** 2
+            nf = 3 + sum(1 for w in walls if w <= mu2)
+            ref = float(sc.a_s(mu2, nf_to=nf)) * 4 * math.pi
+            other = float(sc.a_s(mu2, nf_to=nf - 1)) * 4 * math.pi if nf > 3 else None
+            rows.append(dict(Q2=q2_, muR2=mu2, nf=nf, alpha_s=g, reference=ref, with_one_flavour_less=other))
+            if abs(g - ref) > 1e-10 * ref:
+                bad.append(rows[-1])
+        detail = dict(PTO=pto, kcThr=kc, kbThr=kb, XIR=xir, walls=walls[:2], on_wall_exact=exact, points=rows, mismatches=bad[:3])
+        chk.search_case("alpha_s_on_matching_scales", not bad and all(exact), what=f"ZM-VFNS PTO={pto} kcThr={kc} kbThr={kb} xiR={xir}: alpha_s used by apply_pdf is not the nf = 3 + #(walls <= muR^2) coupling: {bad[:1]}", data=detail, sample=detail if i == 0 else None, nontrivial=any(o is not None and abs(o - r_["reference"]) > 1e-7 for r_ in rows for o in [r_["with_one_flavour_less"]]))
+
+
 def run(tier):
     chk = common.Check("C17", tier)
     thorough = tier == "thorough"
@@ -233,6 +294,7 @@ def run(tier):
     search_output_dispatch(chk, r)
     search_alpha_s(chk, r, 40 if thorough else 6)
     search_alpha_s_vfns(chk, r, 20 if thorough else 4)
+    search_alpha_s_on_walls(chk, r, 24 if thorough else 6)
     chk.assumptions += [
         "PARTIAL: the contraction (orders, powers, logs, masking, linearity) is proved; the construction of alpha_s from the theory card uses eko's Couplings, which is external: it is only observed (reference value reproduced; LO analytic running with nf=NfFF in fixed-flavour schemes)",
         "logarithms and the couplings' values enter the model as rational parameters",
